@@ -4,6 +4,7 @@
    of every named point that has one (byte length, day number, time of day). *)
 EXTENDS Values, Json
 
+QuickShapes == {"solo", "nokey", "first", "lastn"}
 SizePointOf(c) == CHOOSE p \in SizePoints : c \in {"t_" \o p, "bu_" \o p, "bb_" \o p}
 IsSized(c) == \E p \in SizePoints : c \in {"t_" \o p, "bu_" \o p, "bb_" \o p}
 
